@@ -448,6 +448,7 @@ func (f *Frame) appendOp(st *State, in ssa.Instruction, args []*Val, common *ssa
 	}
 	newLen := c.idxAdd(s.Len, t.Len)
 	fits := c.idxLe(newLen, s.Cap)
+	c.addTrig(s.Len) // the position of the first appended element is an instantiation point
 	if n >= 0 && n <= 16 {
 		// in-place branch: write elements after len
 		inPlace := st.clone()
